@@ -7,7 +7,7 @@
    script code after RawSignatureHash's own FindAndDelete(code, OP_CODESEPARATOR) – i.e.
    the oracle is "ECDSA-verify sig[:-1] under pubkey on the legacy sighash whose subscript
    is code'" (C03, C05, C13 are about that oracle). *)
-From BV Require Import Common.Base Common.PyList Common.Tx Gen.ScriptConsts Gen.EvalConsts Model.Script.
+From BV Require Import Common.Base Common.PyList Common.Tx Common.ScriptFlags Gen.ScriptConsts Gen.EvalConsts Model.Script.
 
 (* ---------- script.py: FindAndDelete ---------- *)
 Fixpoint fad_loop (script sig : bytes) (ops : list sop) (r : bytes) (last : Z) (skip : bool) : bytes * Z * bool :=
@@ -29,7 +29,6 @@ Definition find_and_delete (script sig : bytes) : res bytes :=
 (* CScript([x]) for a byte string x: one push operation *)
 Definition push_of (x : bytes) : res bytes := encode_op_pushdata x.
 
-Record flags := { f_p2sh : bool; f_nulldummy : bool; f_cleanstack : bool; f_discourage_nops : bool }.
 
 Section Eval.
 Variable checksig : bytes -> bytes -> bytes -> bool.
@@ -52,6 +51,7 @@ Definition cast_to_bool (s : bytes) : bool := cast_to_bool_loop s.
 (* _CheckSig through the oracle: the subscript handed to RawSignatureHash loses its
    OP_CODESEPARATORs there *)
 Definition check_sig (sig pubkey script : bytes) : res bool :=
+  if is_nil sig then Ok false else          (* `if len(sig) == 0: return False` precedes the hashing *)
   do code <- find_and_delete script [z2b OP_CODESEPARATOR];
   Ok (checksig sig pubkey code).
 
